@@ -76,7 +76,9 @@ class PeerTransport(FakeTransport):
     def write(self, data):
         super().write(data)
         self.rx.append(data)
-        if not self.env.verified.get(id(self), False):
+        # semantic, implementation-independent notion of "verified": at the moment bytes leave, the trust
+        # store holds a pin for this host:port that equals the certificate this peer presented
+        if not self.env.pin_matches(self):
             self.rx_before_verify = self.rx_before_verify + len(data)
 
     def total_rx(self):
@@ -123,6 +125,13 @@ class Env:
 
     def pins(self):
         return {k: v["fingerprint"] for k, v in self.db.rows.items()}
+
+    def pin_matches(self, t):
+        what = self.cert_for.get((t.host, t.port), 0)
+        if not isinstance(what, int):
+            return False                       # unreadable certificate: can never count as verified
+        row = self.db.rows.get((t.host, t.port))
+        return row is not None and row["fingerprint"] == FPS[what]
 
     def _wrap(self, t):
         env = self
